@@ -8,13 +8,13 @@ Import ListNotations.
 
 Lemma reg_new_re_ok sh o s : reround_ok sh o true (snd (reg_new_re sh o s)) = true.
 Proof.
-  destruct s as [a d f c p]. destruct sh as [[] [] cerr perr [] rt]; norm; ranges.
+  destruct s as [a d f c p]. destruct sh as [[] [] cerr perr [] rt nm]; norm; ranges.
 Qed.
 
 Lemma call_re_ok sh we o s :
   sh_ret sh = RPlugin -> reround_ok sh o we (snd (call_re sh we o s)) = true.
 Proof.
-  destruct s as [a d f c p]. destruct sh as [[] [] cerr perr [] rt]; intros R; try discriminate R; clear R;
+  destruct s as [a d f c p]. destruct sh as [[] [] cerr perr [] rt nm]; intros R; try discriminate R; clear R;
     destruct we; norm; ranges.
 Qed.
 
@@ -34,7 +34,7 @@ Lemma nest_creation_ok sh o s :
       errors_evs sh o cev = match rc with inl e => Some e | inr _ => None end
   end.
 Proof.
-  destruct s as [a d f c p]. destruct sh as [[] [] cerr perr [] rt]; intros N; try discriminate N; clear N;
+  destruct s as [a d f c p]. destruct sh as [[] [] cerr perr [] rt nm]; intros N; try discriminate N; clear N;
     norm; ranges.
 Qed.
 
@@ -42,7 +42,7 @@ Theorem nest_holds sh rq o k :
   rq = ReqNew \/ (sh_ret sh = RPlugin /\ is_nocfg (sh_cfg sh) = false) ->
   nest_b sh rq o (run_nest sh rq o k) = true.
 Proof.
-  intros H. unfold run_nest. destruct rq as [|we].
+  intros H. unfold run_nest. destruct rq as [|we named].
   - cbn [nest_b]. apply run_re_forallb. intros s. apply reg_new_re_ok.
   - destruct H as [H|[R N]]; [discriminate H|].
     pose proof (nest_creation_ok sh o st0 N) as C.
